@@ -13,41 +13,53 @@ import Sml.Props.C17
 
   * model : `Rdr` (Sml/Model/Frontends.lean): `DecoderReader` over a source that answers the
     successive `read_byte` attempts with the events `evs : List Ev`
-    (`byte b | wouldBlock | interrupted | other`) and with end of input once the list is used up.
+    (`byte b | wouldBlock | interrupted | other | eof`) and with end of input once the list is
+    used up.
     `SrcKind.io` = `IoByteSource` over `std::io::Read` (`read_exact` of one byte retries
     `Interrupted`; `Ok(0)` is `UnexpectedEof`), `SrcKind.mem` = slice / iterator source.
     An arbitrary `evs` is an arbitrary byte stream with an arbitrary finite sequence of faults at
-    every inter-byte position (and before the first / after the last byte); end of input is at
-    the end of `evs`, and `evs` is arbitrary, so it can be at any position.
+    every inter-byte position (and before the first / after the last byte).
+    End of input comes in two forms: the *final* one at the end of `evs` (every later read attempt
+    reports it again), and the *mid-stream* one, the event `Ev.eof`: this read attempt reports end
+    of input (`Ok(0)` / `UnexpectedEof` from the inner reader), later attempts deliver the
+    following events (a file that is being appended to, a socket / pipe that delivers more
+    later).  `evs` is arbitrary, so both can be at any position.
   * `nexts r k` / `reads r k` : the results of `k` successive `next` / `read` calls.
   * the complete behaviour (§0, Sml/Lemmas/RdrFaults.lean):
       `RF.opsOf evs`   the decoder operations the events cause: `byte b ↦ push_byte b`,
-                        `other ↦ reset`, `wouldBlock`, `interrupted ↦` nothing;
-      `RF.body d evs`  the results produced while events are left: per byte the non-`None`
+                        `other`, `eof ↦ reset`, `wouldBlock`, `interrupted ↦` nothing;
+      `RF.body d evs`  the results `read` produces while events are left: per byte the non-`None`
                         answer of `push_byte`, per `wouldBlock` one `IoErr(WouldBlock, 0)`, per
-                        `other` one `IoErr(Other, reset())`;
+                        `other` one `IoErr(Other, reset())`, per `eof` one `IoErr(Eof, reset())`;
+      `nextBody cap evs` the same as `next` presents it: `IoErr(Eof, 0)` becomes `None`, nothing
+                        else changes (`= body` when `Ev.eof ∉ evs`: `nextBody_eq_body`);
       `pending cap evs` the value `reset` returns in the decoder state reached when `evs` is
                         used up, i.e. (C17) the number of bytes since the last boundary;
-      `results cap evs = body ++ (if pending = 0 then [] else [IoErr(Eof, pending)])`.
+      `results cap evs = nextBody ++ (if pending = 0 then [] else [IoErr(Eof, pending)])`.
     `nexts_eq` : `k` calls of `next` return `results`, then `None` forever — for every `k`.
     `calls_eq` : any interleaving of `read` / `next` / `read_nb` / `next_nb`: the `i`-th call
     returns `view c` of the `i`-th element of `readResults = body ++ [IoErr(Eof, pending)]`, resp.
     of `IoErr(Eof, 0)` afterwards, where `view` is the relabelling the entry point applies to the
     result of `read` (`all_calls`).
-  All theorems hold for all event lists and all buffer capacities; none needs a hypothesis on the
-  events.
+  All theorems hold for all event lists (with any number of mid-stream ends of input) and all
+  buffer capacities.  A hypothesis `Ev.eof ∉ evs` appears only where a statement is *about* the
+  absence of end-of-input reports before the final one:
+    - `results_spec`, `other_resets` : the clause "no `None` / no `IoErr(Eof, _)` among these
+      results" (a mid-stream end of input is, by definition, such a result),
+    - `wouldblock_reference` : "with would-block / interrupted faults only".
 -/
 namespace Sml.C11
 
 open RF (view body opsOf bytesOf)
 
-/-- remove the `WouldBlock` and `Interrupted` events -/
+/-- remove the `WouldBlock` and `Interrupted` events (errors and mid-stream ends of input stay) -/
 def strip : List Ev → List Ev
   | [] => []
   | .byte b :: evs => .byte b :: strip evs
   | .wouldBlock :: evs => strip evs
   | .interrupted :: evs => strip evs
   | .other :: evs => .other :: strip evs
+  | .eof :: evs => .eof :: strip evs
 
 /-- remove the would-block results -/
 def dropWB (l : List RItem) : List RItem := l.filter (· ≠ RItem.ioErr .wouldBlock 0)
@@ -62,9 +74,17 @@ def reads (r : Rdr) (k : Nat) : List RItem := (r.calls (List.replicate k .read))
 def pending (cap : Option Nat) (evs : List Ev) : Nat :=
   ((Dec.run (Dec.fresh cap) (opsOf evs)).1.reset).2
 
-/-- everything `next` returns before it starts returning `None` -/
+/-- the results `next` produces while events are left: those of `read` (`body`), with
+`IoErr(Eof, 0)` (a mid-stream end of input with nothing pending) presented as `None` -/
+def nextBody (cap : Option Nat) (evs : List Ev) : List RItem :=
+  (body (Dec.fresh cap) evs).map (view .next)
+
+/-- what `next` returns for a mid-stream end of input with `n` bytes pending -/
+def midEof (n : Nat) : RItem := if n = 0 then .none else .ioErr .eof n
+
+/-- everything `next` returns before it starts returning `None` for good -/
 def results (cap : Option Nat) (evs : List Ev) : List RItem :=
-  body (Dec.fresh cap) evs ++
+  nextBody cap evs ++
     (if pending cap evs = 0 then [] else [RItem.ioErr .eof (pending cap evs)])
 
 /-- everything `read` returns before it starts returning `IoErr(Eof, 0)` -/
@@ -76,6 +96,20 @@ theorem strip_eq (evs : List Ev) : strip evs = RF.strip evs := by
   | nil => rfl
   | cons e evs ih => cases e <;> simp [strip, RF.strip, ih]
 
+theorem nextBody_eq (cap : Option Nat) (evs : List Ev) :
+    nextBody cap evs = RF.nextBody (Dec.fresh cap) evs := rfl
+
+theorem midEof_eq (n : Nat) : midEof n = RF.midEof n := rfl
+
+/-- without a mid-stream end of input `next` and `read` return the same results while events are
+left, and `results` has the form `body ++ …` -/
+theorem nextBody_eq_body (cap : Option Nat) (evs : List Ev) (h : Ev.eof ∉ evs) :
+    nextBody cap evs = body (Dec.fresh cap) evs ∧
+    results cap evs = body (Dec.fresh cap) evs ++
+      (if pending cap evs = 0 then [] else [RItem.ioErr .eof (pending cap evs)]) := by
+  have := RF.map_view_next_body (Dec.fresh cap) evs h
+  exact ⟨this, by unfold results nextBody; rw [this]⟩
+
 /-! ### 0. the complete behaviour of the reader, all four entry points -/
 
 /-- `k` successive `next` calls, any `k`: `results`, then `None` forever -/
@@ -83,14 +117,20 @@ theorem nexts_eq (cap : Option Nat) (evs : List Ev) (k : Nat) :
     nexts (Rdr.new .io cap evs) k = padTo RItem.none (results cap evs) k :=
   RF.nexts_io (Dec.fresh cap) evs k
 
-/-- `results` is determined by `nexts_eq`: it contains no `None` (and no `IoErr(Eof, 0)`, which
-`next` would have turned into `None`); `|evs| + 1` calls suffice to see all of it -/
+/-- `results` is determined by `nexts_eq`: it contains no `IoErr(Eof, 0)` (which `next` turns into
+`None`) and a `None` only for a mid-stream end of input with nothing pending — at most one per
+`Ev.eof` event, hence none at all if there is no such event (this is the old statement; the
+hypothesis `Ev.eof ∉ evs` is needed for that clause, e.g. `results cap [.eof] = [None]`);
+`|evs| + 1` calls suffice to see all of it -/
 theorem results_spec (cap : Option Nat) (evs : List Ev) :
-    (∀ x ∈ results cap evs, x ≠ RItem.none ∧ x ≠ RItem.nbWouldBlock ∧ x ≠ RItem.ioErr .eof 0) ∧
+    (∀ x ∈ results cap evs,
+      (Ev.eof ∉ evs → x ≠ RItem.none) ∧ x ≠ RItem.nbWouldBlock ∧ x ≠ RItem.ioErr .eof 0) ∧
+      (results cap evs).count RItem.none ≤ evs.count .eof ∧
       (results cap evs).length ≤ evs.length + 1 :=
   ⟨fun x hx => by
       have := RF.results_mem (Dec.fresh cap) evs x hx
       exact ⟨this.1, this.2.1, this.2.2.1⟩,
+    RF.count_none_results (Dec.fresh cap) evs,
     RF.results_length_le (Dec.fresh cap) evs⟩
 
 /-- every entry point is `read` followed by a relabelling of its result; all four leave the
@@ -164,13 +204,15 @@ theorem wouldblock_transparent_from (d : Dec) (evs : List Ev) (k : Nat) :
   rw [RF.nexts_io, RF.nexts_io, strip_eq, RF.results_strip, ← RF.count_wb_results d evs]
   exact RF.dropWB_padTo (RF.results d evs) k
 
-/-- With would-block / interrupted faults only, the results other than would-block are the
-reference sequence of C15 for the bytes of the stream. -/
-theorem wouldblock_reference (cap : Option Nat) (evs : List Ev) (h : Ev.other ∉ evs) :
+/-- With would-block / interrupted faults only (no `other` error and no mid-stream end of input:
+`h'` is new with `Ev.eof`, which resets the decoder like `other`), the results other than
+would-block are the reference sequence of C15 for the bytes of the stream. -/
+theorem wouldblock_reference (cap : Option Nat) (evs : List Ev) (h : Ev.other ∉ evs)
+    (h' : Ev.eof ∉ evs) :
     dropWB (results cap evs) =
       (C15.items (Dec.pushAll (Dec.fresh cap) (bytesOf evs)).2).map Item.toR ++
         C15.finalRItem (Dec.pushAll (Dec.fresh cap) (bytesOf evs)).1 := by
-  rw [(wouldblock_transparent cap evs).1, strip_eq, RF.strip_eq_bytes evs h]
+  rw [(wouldblock_transparent cap evs).1, strip_eq, RF.strip_eq_bytes evs h h']
   exact RF.results_bytes _ (Dec.inv_fresh cap)
 
 /-- One `read` call that runs into a would-block after the events `pre` (bytes answered
@@ -197,10 +239,11 @@ to `Eof` there (`results cap pre` is `rs`, followed by `IoErr(Eof, n)` unless `n
 the reader returns `rs`, then exactly one `IoErr(Other, n)`, then exactly what a new reader returns
 on `post` — for any number of further calls. -/
 theorem other_resets (cap : Option Nat) (pre post : List Ev) :
-    let rs := body (Dec.fresh cap) pre
+    let rs := nextBody cap pre
     let n := pending cap pre
     results cap pre = rs ++ (if n = 0 then [] else [RItem.ioErr .eof n]) ∧
-    (∀ x ∈ rs, x ≠ RItem.none ∧ ∀ m, x ≠ RItem.ioErr .eof m) ∧
+    -- `rs` holds no end-of-input report unless `pre` has a mid-stream end of input
+    (Ev.eof ∉ pre → ∀ x ∈ rs, x ≠ RItem.none ∧ ∀ m, x ≠ RItem.ioErr .eof m) ∧
     nexts (Rdr.new .io cap pre) rs.length = rs ∧
     results cap (pre ++ .other :: post) = rs ++ [RItem.ioErr .other n] ++ results cap post ∧
     ∀ k, nexts (Rdr.new .io cap (pre ++ .other :: post)) (rs.length + 1 + k) =
@@ -208,9 +251,9 @@ theorem other_resets (cap : Option Nat) (pre post : List Ev) :
   intro rs n
   have h3 : results cap (pre ++ .other :: post) = rs ++ [RItem.ioErr .other n] ++ results cap post :=
     RF.results_other_fresh cap pre post
-  refine ⟨rfl, fun x hx => ?_, ?_, h3, fun k => ?_⟩
-  · have := RF.body_mem pre (Dec.fresh cap) x hx
-    exact ⟨this.1, this.2.2.1⟩
+  refine ⟨rfl, fun hne x hx => ?_, ?_, h3, fun k => ?_⟩
+  · have := RF.nextBody_mem (Dec.fresh cap) pre x hx
+    exact ⟨this.1 hne, this.2.2.2.1 hne⟩
   · have := padTo_append_left RItem.none rs
       (if n = 0 then [] else [RItem.ioErr .eof n]) 0
     rw [padTo_zero, List.append_nil, Nat.add_zero] at this
@@ -304,14 +347,97 @@ theorem eof_pending {d : Dec} (h : Dec.Inv d) :
 /-- whole streams: after the results produced by the events, `next` returns `None` at once iff
 nothing is pending, otherwise one `IoErr(Eof, pending)`; then `None` on all further calls -/
 theorem eof_stream (cap : Option Nat) (evs : List Ev) (k : Nat) :
-    nexts (Rdr.new .io cap evs) ((body (Dec.fresh cap) evs).length + 1 + k) =
-      body (Dec.fresh cap) evs ++
+    nexts (Rdr.new .io cap evs) ((nextBody cap evs).length + 1 + k) =
+      nextBody cap evs ++
         (if pending cap evs = 0 then RItem.none else RItem.ioErr .eof (pending cap evs)) ::
           List.replicate k RItem.none := by
   rw [nexts_eq, results, Nat.add_assoc, padTo_append_left, Nat.add_comm 1 k]
   split
   · rw [padTo_nil, List.replicate_succ]
   · rw [padTo_cons, padTo_nil]
+
+/-! ### 3b. mid-stream end of input (`Ev.eof`): the source reports end of input for one read
+attempt and delivers more afterwards -/
+
+/-- One call on a reader (slice / iterator / `io::Read`) in any decoder state `d` whose source now
+reports end of input but has the events `evs` to deliver later: `read` returns `IoErr(Eof, n)` with
+`n` = what `reset` discards; `next` returns `None` iff `n = 0`, otherwise the same error.  Either
+call resets the decoder and leaves the source positioned behind the event. -/
+theorem eof_midstream_call (kind : SrcKind) (hk : kind = .mem ∨ kind = .io) (d : Dec)
+    (evs : List Ev) :
+    let r : Rdr := { kind := kind, dec := d, evs := .eof :: evs }
+    r.read = ({ kind := kind, dec := (d.reset).1, evs := evs }, RItem.ioErr .eof (d.reset).2) ∧
+    r.next = ({ kind := kind, dec := (d.reset).1, evs := evs }, midEof (d.reset).2) ∧
+    ((r.next).2 = RItem.none ↔ (d.reset).2 = 0) := by
+  have hk' : kind ≠ .eh := by rcases hk with rfl | rfl <;> simp
+  intro r
+  have hr : r.read = _ := RF.read_eof hk' d evs
+  have hn : r.next = ({ kind := kind, dec := (d.reset).1, evs := evs }, midEof (d.reset).2) := by
+    have := all_calls r .next
+    rw [hr] at this
+    exact this.trans (by rw [midEof_eq, ← RF.view_next_eof])
+  refine ⟨hr, hn, ?_⟩
+  rw [hn]
+  unfold midEof
+  split <;> simp_all
+
+/-- Events `pre`, then a mid-stream end of input, then `post` — `next`.  With `rs` = what `next`
+returns on the events `pre` and `n` = the number of pending bytes there (`results cap pre` is `rs`,
+followed by `IoErr(Eof, n)` unless `n = 0`): the reader returns `rs`, then for the end of input
+exactly one result — `None` if nothing is pending, `IoErr(Eof, n)` with the exact count otherwise —,
+then exactly what a new reader returns on `post`, for any number of further calls.  In particular
+after a `None` later calls of `next` can return data again. -/
+theorem eof_midstream (cap : Option Nat) (pre post : List Ev) :
+    let rs := nextBody cap pre
+    let n := pending cap pre
+    results cap pre = rs ++ (if n = 0 then [] else [RItem.ioErr .eof n]) ∧
+    nexts (Rdr.new .io cap pre) rs.length = rs ∧
+    results cap (pre ++ .eof :: post) = rs ++ [midEof n] ++ results cap post ∧
+    ∀ k, nexts (Rdr.new .io cap (pre ++ .eof :: post)) (rs.length + 1 + k) =
+      rs ++ [midEof n] ++ nexts (Rdr.new .io cap post) k := by
+  intro rs n
+  have h3 : results cap (pre ++ .eof :: post) = rs ++ [midEof n] ++ results cap post :=
+    RF.results_eof_fresh cap pre post
+  refine ⟨rfl, ?_, h3, fun k => ?_⟩
+  · have := padTo_append_left RItem.none rs
+      (if n = 0 then [] else [RItem.ioErr .eof n]) 0
+    rw [padTo_zero, List.append_nil, Nat.add_zero] at this
+    rw [nexts_eq]
+    exact this
+  · rw [nexts_eq, nexts_eq, h3]
+    have := padTo_append_left RItem.none (rs ++ [midEof n]) (results cap post) k
+    rw [List.length_append, List.length_singleton] at this
+    exact this
+
+/-- the same for `read` (hence for every entry point, by `calls_eq`): the results of `read` are
+exact, the end of input is `IoErr(Eof, n)` also for `n = 0` -/
+theorem eof_midstream_read (cap : Option Nat) (pre post : List Ev) :
+    let rs := body (Dec.fresh cap) pre
+    let n := pending cap pre
+    readResults cap (pre ++ .eof :: post) = rs ++ [RItem.ioErr .eof n] ++ readResults cap post ∧
+    ∀ k, reads (Rdr.new .io cap (pre ++ .eof :: post)) (rs.length + 1 + k) =
+      rs ++ [RItem.ioErr .eof n] ++ reads (Rdr.new .io cap post) k := by
+  intro rs n
+  have h3 : readResults cap (pre ++ .eof :: post) =
+      rs ++ [RItem.ioErr .eof n] ++ readResults cap post :=
+    RF.readResults_eof_fresh cap pre post
+  refine ⟨h3, fun k => ?_⟩
+  rw [reads_eq, reads_eq, h3]
+  have := padTo_append_left (RItem.ioErr .eof 0) (rs ++ [RItem.ioErr .eof n])
+    (readResults cap post) k
+  rw [List.length_append, List.length_singleton] at this
+  exact this
+
+/-- the count attached to a mid-stream end of input is exact (C17), and the decoder it leaves
+behind is as good as new (C14): both are the statements for `other`, because the two events cause
+the same decoder operation (`reset`) -/
+theorem eof_midstream_count_exact (cap : Option Nat) (pre : List Ev) :
+    (∃ b, Spec.tileOps 0 0 (Dec.run (Dec.fresh cap) (opsOf pre)).2 =
+        some (b, (bytesOf pre).length) ∧ b + pending cap pre = (bytesOf pre).length) ∧
+    Dec.Equiv ((Dec.run (Dec.fresh cap) (opsOf pre)).1.reset).1 (Dec.fresh cap) ∧
+    opsOf (pre ++ [.eof]) = opsOf (pre ++ [.other]) :=
+  ⟨other_count_exact cap pre, other_leaves_fresh cap pre, by
+    rw [RF.opsOf_append, RF.opsOf_append]; rfl⟩
 
 /-- the count at end of input is exact as well (C17) -/
 theorem eof_count_exact (cap : Option Nat) (evs : List Ev) :
@@ -390,6 +516,29 @@ example : nexts (Rdr.new .io none (frame.map .byte)) 3 =
 
 example : reads (Rdr.new .io none (frame.map .byte)) 3 =
     [.ok [0x12, 0x34, 0x56, 0x78], .ioErr .eof 0, .ioErr .eof 0] := by
+  decide +kernel
+
+/-- mid-stream end of input on a boundary (a file that is appended to between two reads): `next`
+returns `None`, and the next call delivers the frame that has arrived meanwhile; `read` reports
+`IoErr(Eof, 0)` instead -/
+example : nexts (Rdr.new .io none (frame.map .byte ++ [.eof] ++ frame.map .byte)) 5 =
+    [.ok [0x12, 0x34, 0x56, 0x78], .none, .ok [0x12, 0x34, 0x56, 0x78], .none, .none] := by
+  decide +kernel
+
+example : reads (Rdr.new .io none (frame.map .byte ++ [.eof] ++ frame.map .byte)) 5 =
+    [.ok [0x12, 0x34, 0x56, 0x78], .ioErr .eof 0, .ok [0x12, 0x34, 0x56, 0x78], .ioErr .eof 0,
+      .ioErr .eof 0] := by
+  decide +kernel
+
+/-- mid-stream end of input 9 bytes into a frame: the 9 bytes are reported and discarded, the rest
+of that frame (11 bytes) is noise to the reset decoder, the following frame is delivered -/
+example : nexts (Rdr.new .io none
+      ((frame.take 9).map .byte ++ [.eof] ++ (frame.drop 9).map .byte ++ frame.map .byte)) 5 =
+    [.ioErr .eof 9, .decErr (.discarded 11), .ok [0x12, 0x34, 0x56, 0x78], .none, .none] := by
+  decide +kernel
+
+example : results none (frame.map .byte ++ [.eof, .eof] ++ (frame.take 3).map .byte) =
+    [.ok [0x12, 0x34, 0x56, 0x78], .none, .none, .ioErr .eof 3] := by
   decide +kernel
 
 /-- the hypothesis of `read_wouldBlock` is met by the first five bytes of a frame -/
